@@ -31,11 +31,17 @@ D(q)      == [t |-> "d", s |-> "", q |-> q]       \* sequence of [k, v], keys as
 Atoms     == {Null, B(TRUE), B(FALSE), I("0"), I("1"), I("-1"), I("max"), I("max-1"), F("1.5"), S(""), S("a"), S("é中")}
 SmallL    == {L(<<>>), L(<<I("1")>>), L(<<S("a"), Null>>)}
 SmallD    == {D(<<>>), D(<<[k |-> "x", v |-> I("1")]>>), D(<<[k |-> "", v |-> Null], [k |-> "y", v |-> B(TRUE)]>>)}
-\* payload shapes: positional arguments and keyword arguments (depth <= 3)
+\* deeply nested values (the data model does not bound nesting)
+RECURSIVE DeepL(_)
+DeepL(n) == IF n = 0 THEN I("1") ELSE L(<<DeepL(n - 1)>>)
+RECURSIVE DeepM(_)
+DeepM(n) == IF n = 0 THEN S("a") ELSE IF n % 2 = 0 THEN L(<<DeepM(n - 1), Null>>) ELSE D(<<[k |-> "k", v |-> DeepM(n - 1)]>>)
+\* payload shapes: positional arguments and keyword arguments
 ArgsSet   == {L(<<>>), L(<<I("max")>>), L(<<S("a"), I("-1"), F("1.5"), Null, B(FALSE)>>), L(<<L(<<>>), D(<<>>)>>),
-              L(<<L(<<I("1"), L(<<S("é中")>>)>>), D(<<[k |-> "k", v |-> L(<<I("max-1")>>)]>>)>>), L(<<S("")>>)}
+              L(<<L(<<I("1"), L(<<S("é中")>>)>>), D(<<[k |-> "k", v |-> L(<<I("max-1")>>)]>>)>>), L(<<S("")>>),
+              L(<<DeepL(24)>>), L(<<DeepM(33), DeepL(12)>>)}
 KwSet     == {D(<<>>), D(<<[k |-> "a", v |-> I("300")]>>), D(<<[k |-> "", v |-> S("")], [k |-> "n", v |-> D(<<[k |-> "m", v |-> L(<<Null>>)]>>)]>>),
-              D(<<[k |-> "f", v |-> F("1.5")], [k |-> "t", v |-> B(TRUE)]>>)}
+              D(<<[k |-> "f", v |-> F("1.5")], [k |-> "t", v |-> B(TRUE)]>>), D(<<[k |-> "deep", v |-> DeepM(40)]>>)}
 DetailSet == {D(<<>>), D(<<[k |-> "match", v |-> S("prefix")]>>), D(<<[k |-> "roles", v |-> D(<<[k |-> "caller", v |-> D(<<>>)]>>)], [k |-> "x", v |-> I("1")]>>)}
 
 \* --------------------------------------------------------------------------
